@@ -115,6 +115,9 @@ color = "never"
         cmd.env_clear();
         cmd.env("COLUMNS", "100");
         cmd.env("RUST_BACKTRACE", "0");
+        // Thousands of short-lived jj processes: keep their rayon pools small (does not
+        // change jj's results, only how many idle worker threads each process spawns).
+        cmd.env("RAYON_NUM_THREADS", "2");
         cmd.env("PATH", std::env::var_os("PATH").unwrap_or_default());
         cmd.env("HOME", &self.home);
         cmd.env("TMPDIR", &self.tmp);
